@@ -201,8 +201,12 @@ class Elf(BinFormat):
     def getfileoffset(self, target):
         "converts given target virtual address back to offset in file"
         s, offset, base = self.getinfo(target)
-        if s != None:
-            result = s.p_offset + offset
+        if s is not None:
+            # getinfo returns a section header or a program header:
+            if isinstance(s, Shdr):
+                result = s.sh_offset + offset
+            else:
+                result = s.p_offset + offset
         else:
             result = None
         return result
